@@ -55,6 +55,9 @@ CLAIMED = {
     "C11": ("fault injection on real initiator processes (generated worker activities x ways and moments of the initiator's end, SIGSTOP census for kills during bootstrap) with a /proc liveness oracle; the worker side modelled in-process under the deterministic scheduler with virtual time and single/pairwise preemption enumeration",
             "Generated initiator processes create real workers with generated activities and then return, _exit, exit their gateways or are SIGKILLed at generated moments (also during bootstrap); every worker pid must be gone within 25 s. In addition the real WorkerGateway runs in-process under the scheduler with bodies that block, sleep, allocate channels, send or sit in a never-returning callback while the initiator vanishes: within 16 virtual seconds serve() must return or os._exit must be reached, under generated schedules and enumerated preemptions of the shutdown path.",
             "Real part: OS schedule not owned, bound 25 s vs. 15 s ladder. In-process part: a busy loop cannot be modelled (a spinning managed thread never yields), SIGINT delivery is recorded, not performed.", "3/C11"),
+    "C06": ("grammar-generated remote programs in three forms (string, function with generated kwargs, module) executed on real popen/socket/via/main_thread_only gateways; differential oracle against a local interpretation with a recording channel; traceback line oracle; generated must-reject function shapes with a wire/byte-count oracle",
+            "Programs generated from a statement grammar (sends, loops, imports, try/except, refused explicit close, stdio writes up to 1 MB on every stream, a raise at a generated statement, a park in receive) are rendered as source strings, functions in generated module files with kwargs of all serialisable types, and modules, and run on real gateways of every transport; a local interpretation predicts every item, the RemoteError must name the generated file and the exact line, the channel must be open while the body is parked and end exactly when it finishes, rejected function shapes must raise locally with nothing written and no channel id consumed.",
+            "Real workers; comprehensions/inner defs not generated. Worker stderr redirected to /dev/null.", "3/C06"),
 }
 
 NOT_APPLICABLE = {}
